@@ -1449,7 +1449,26 @@ func c12R6(p *core.Prog, r *core.Report, rule string) {
 	isAcquire := func(f *types.Func) bool {
 		return core.IsModMethod(f, "internal/pqueue", "Queue", "Acquire")
 	}
+	helpers := core.Helpers(next, 2)
 	acqs := core.CallsTo(next, isAcquire)
+	// a wrapper of the package that hands back what Acquire returns counts as the Acquire at its call
+	core.Calls(next, func(c ssa.CallInstruction) {
+		h := core.CalleeFn(c)
+		if h == nil || h == next || !helpers[h] {
+			return
+		}
+		for _, ret := range core.Returns(h) {
+			if len(ret.Results) == 0 {
+				continue
+			}
+			for _, oc := range originCalls(core.ReturnOperand(ret, 0)) {
+				if isAcquire(core.Callee(oc)) {
+					acqs = append(acqs, c)
+					return
+				}
+			}
+		}
+	})
 	if len(acqs) == 0 {
 		r.MissingAnchor(rule, "call of (*pqueue.Queue).Acquire in (*Resp).next")
 		return
@@ -1458,7 +1477,7 @@ func c12R6(p *core.Prog, r *core.Report, rule string) {
 	var ownN *types.Named
 	ownF := ""
 	for _, fs := range fieldStores(core.WithAnon(next), func(n *types.Named, f string) bool { return true }) {
-		for _, o := range core.Origins(fs.Store.Val, core.SliceOpts{}) {
+		for _, o := range core.Origins(fs.Store.Val, core.SliceOpts{Helpers: helpers}) {
 			if o.Kind == core.OCall && o.Res == 0 && o.Callee() != nil && isAcquire(o.Callee()) {
 				ownN, ownF = core.FieldAddrInfo(fs.Addr)
 			}
@@ -1513,7 +1532,42 @@ func c12R6(p *core.Prog, r *core.Report, rule string) {
 		}
 		return false
 	}
-	reach := core.Reach{Stop: clearAfterCall, StopEdge: knownNilEdge}
+	// a helper that releases: from its entry no return is reachable except through the clear after the
+	// call or the field-is-nil edge
+	releases := map[*ssa.Function]bool{}
+	for h := range helpers {
+		if h == next || len(h.Blocks) == 0 {
+			continue
+		}
+		touches := false
+		for _, b := range h.Blocks {
+			for _, in := range b.Instrs {
+				touches = touches || isClear(in)
+			}
+		}
+		if !touches {
+			continue
+		}
+		ok := true
+		for in := range (core.Reach{Stop: clearAfterCall, StopEdge: knownNilEdge}).FromEntry(h) {
+			if _, isRet := in.(*ssa.Return); isRet {
+				ok = false
+			}
+		}
+		releases[h] = ok
+	}
+	stop := func(in ssa.Instruction) bool {
+		if clearAfterCall(in) {
+			return true
+		}
+		if c, ok := in.(ssa.CallInstruction); ok {
+			if _, isDefer := in.(*ssa.Defer); !isDefer && releases[core.CalleeFn(c)] {
+				return true
+			}
+		}
+		return false
+	}
+	reach := core.Reach{Stop: stop, StopEdge: knownNilEdge}
 	lab := labeler{}
 	for _, a := range acqs {
 		ai := a.(ssa.Instruction)
